@@ -44,6 +44,7 @@ def check(world, tier):
     b = rep.clause("C04.b", "receiver: a non-progress cycle through the receive re-acknowledges the last in-sequence block")
     c = rep.clause("C04.c", "retry budget >= 6; stale ACKs and duplicate DATA neither consume it nor abort")
     d = rep.clause("C04.d", "an accepted ACK cannot abort the transfer")
+    e_ = rep.clause("C04.e", "a partially acknowledged final window is sent again: the sender ends only when its queue is empty")
     if S is None or Rv is None:
         a.fail("anchor-lost worker-closures", "closures spawned by Worker::send / Worker::receive not found")
         return rep
@@ -92,6 +93,12 @@ def check(world, tier):
                 if f == fid and isinstance(site, tuple) and site[0] == "call":
                     bursts.add((fid, site[3]))
         bursts |= set(n for n in data_sends if n[0] == fid)
+        # a burst written as a loop inside the receive loop: passing its head is "transmitting the window" (also when the window is empty)
+        for n in data_sends:
+            for lp in S.loops_containing(n):
+                if lp == (fid, h):
+                    break
+                bursts.add(lp)
         for e in nows:
             ok = e.node not in g.reachable([head], avoid_nodes=bursts | outside)
             a.ob(ok, "timer-rearmed-without-burst", "the retransmission timer is re-armed on a path that did not transmit the window "
@@ -167,12 +174,13 @@ def check(world, tier):
                 r2 = g.reachable([e[1]], avoid_nodes=prog_nodes, stop_at=errret | set([(fid, h)]))
                 c.ob(not (r2 & errret), "stale-ack-aborts", "an ACK that is not accepted can end the transfer with an error")
     # ------------------------------------------------------------ d
-    obs = [o for o in eng.obligations.values() if o.region == S.name and not o.kind.startswith("ghost") and
-           (o.body.endswith("window::Window::remove") or o.ctx == S.transfer_frame())]
+    obs = S.transfer_obligations()
     d.need(len(obs), 3, "obligations on the accepted-ACK path (distance arithmetic, remove)")
     for o in obs:
         if o.kind in ("duration-add", "instant-sub"):
             continue
         d.ob(o.proven, ob_key(o), "on the ACK path of the sender: %s (%s)" % (o.detail, o.residual), o.loc,
              sample={"obligation": o.kind + " " + o.detail, "at": o.loc, "proven": o.proven})
+    from . import C07
+    import_clause(world, tier, e_, C07, "C07.d", ("send-ends-only-when-window-empty",), "sender-finishes-only-with-empty-window")
     return rep
